@@ -72,6 +72,9 @@ def main(args):
                 continue
             if want and k["id"] not in want:
                 continue
+            if "equivalent" in expect.get(k["id"], {}):
+                print(f"SELFTEST {k['id']}: EQUIVALENT ({expect[k['id']]['equivalent'][:120]}...)")
+                continue
             todo.append(("revert", {"name": k["id"], "property": k["property"], "commit": k["commit"], "checks": expect.get(k["id"], {}).get("checks")}))
     rc_all = 0
     for kind, c in todo:
